@@ -253,6 +253,25 @@ def run(ctx):
                               'generator local _%d' % gen_local, 'a call in the proposal loop uses a different generator')
         rep.floor('R4', 'generator arguments in the proposal loop', n_rng, 3, where(b))
     _zero_temperature_reaches_decision_as_zero(ctx, oa)
+    # R6: "worse by d" is measured against the CURRENT score: the bookkeeping obligations of C06.R5 (what the decision's `old`
+    # argument can hold) are part of the Metropolis rule as applied by the optimiser
+    from ..harness import Report
+    from .C06 import run as run_c06
+    sub = type('Ctx', (), {})()
+    sub.__dict__.update(ctx.__dict__)
+    sub.rep = Report('C06', ctx.tier)
+    run_c06(sub)
+    n_imp = 0
+    for o in sub.rep.obligations:
+        if o['rule'] != 'R5':
+            continue
+        n_imp += 1
+        if o['ok']:
+            rep.ok('R6', 'C06:' + o['rule'] + '/' + o['instance'], o['construct'], o['why'])
+        else:
+            rep.fail('R6', 'C06:' + o['rule'] + '/' + o['instance'], o['construct'], o['why'], o['reason'])
+    rep.floor('R6', 'imported score-bookkeeping obligations (C06.R5)', n_imp, 3)
+    rep.analysed |= sub.rep.analysed
     # argument roles
     old_l = oa.arg_local(oa.dec_args['old'])
     kt_l = oa.arg_local(oa.dec_args['kt'])
